@@ -45,7 +45,7 @@ def main(tier, replay=None):
     if exe is None:
         return c.finish(TRUSTED, no_input_break="extraction/OCaml build of the Keys model failed: " + err[-1500:])
 
-    n = 110 if tier == "quick" else 2500
+    n = 110 if tier == "quick" else 1500
     impl = os.path.join(c.workdir, "impl.txt")
     if replay:
         rp = json.load(open(replay))
